@@ -261,6 +261,60 @@ def rule_absolute_paths(ctx, rid="R6.5"):
     return r
 
 
+def rule_context_is_list(ctx, rid="R6.5c"):
+    """_Error.__init__ walks its `context` argument twice (it stores list(context), then sets each child's parent), so a
+    one-shot iterator would leave every child without its parent link and hence without absolute paths."""
+    prog = ctx.prog
+    calls = calls_of(prog)
+    r = ctx.rule(rid, "every error constructed with context= is given a realised list, so that each context error gets its parent link", floor=3)
+    for f in sorted(prog.funcs.values(), key=lambda x: x.qual):
+        if f.mod.name in ("cli",):
+            continue
+        cfg = None
+        for n in walk_body(f):
+            if not isinstance(n, ast.Call):
+                continue
+            kw = next((k.value for k in n.keywords if k.arg == "context"), None)
+            if kw is None:
+                continue
+            tg = calls.callee(f, n)
+            if not any(t.kind == "class" and t.typ in ("ValidationError", "SchemaError", "Error") for t in tg):
+                continue
+
+            def listy(e, depth=0):
+                if isinstance(e, (ast.List, ast.ListComp)):
+                    return True
+                if isinstance(e, ast.Call) and norm(e.func) in ("list", "sorted"):
+                    return True
+                if isinstance(e, ast.Name) and depth < 3:
+                    defs = [x.value for x in walk_body(f) if isinstance(x, ast.Assign) and any(isinstance(t, ast.Name) and t.id == e.id for t in x.targets)]
+                    return bool(defs) and all(listy(d, depth + 1) for d in defs)
+                return False
+            if listy(kw):
+                r.ok(site(f, n), "context=%s is a list" % norm(kw)[:40])
+            else:
+                r.fail("%s|context-not-a-list|%s" % (f.qual, norm(kw)[:40]), site(f, n),
+                       "context=%s is not a realised list: the error constructor iterates it twice, so a one-shot iterator leaves the context "
+                       "errors without their parent link (absolute paths and json_path then stay relative)" % norm(kw)[:60])
+    # and what the context lists collect are errors, not lists of errors
+    for f in sorted(prog.tables.keyword_funcs(), key=lambda x: x.qual):
+        ctxnames = set()
+        for n in walk_body(f):
+            if isinstance(n, ast.Call):
+                kw = next((k.value for k in n.keywords if k.arg == "context"), None)
+                if isinstance(kw, ast.Name):
+                    ctxnames.add(kw.id)
+        for n in walk_body(f):
+            if isinstance(n, ast.Call) and isinstance(n.func, ast.Attribute) and isinstance(n.func.value, ast.Name) and n.func.value.id in ctxnames \
+                    and n.func.attr == "append" and n.args:
+                a = n.args[0]
+                is_listvar = isinstance(a, ast.Name) and any(isinstance(x, ast.Assign) and any(isinstance(t, ast.Name) and t.id == a.id for t in x.targets)
+                                                             and isinstance(x.value, ast.Call) and norm(x.value.func) == "list" for x in walk_body(f))
+                if is_listvar:
+                    r.fail("%s|context-of-lists|%s" % (f.qual, norm(n)[:40]), site(f, n), "%s appends a *list* of errors to the context (extend was meant): context entries are not errors" % norm(n)[:50])
+    return r
+
+
 def rule_handmade_errors(ctx, rid="R6.6"):
     prog = ctx.prog
     calls = calls_of(prog)
@@ -306,4 +360,5 @@ def run(ctx):
     rule_dispatcher_stamp(ctx)
     rule_descend_prepends(ctx)
     rule_absolute_paths(ctx)
+    rule_context_is_list(ctx)
     rule_handmade_errors(ctx)
